@@ -9,6 +9,7 @@ import (
 	"sort"
 	"strings"
 	"sync"
+	"sync/atomic"
 	"time"
 
 	"berty.tech/go-orbit-db/iface"
@@ -21,7 +22,10 @@ import (
 	"github.com/ipfs/kubo/core/coreiface/options"
 	p2ppubsub "github.com/libp2p/go-libp2p-pubsub"
 	"github.com/libp2p/go-libp2p/core/crypto"
+	"github.com/libp2p/go-libp2p/core/host"
+	"github.com/libp2p/go-libp2p/core/network"
 	"github.com/libp2p/go-libp2p/core/peer"
+	"github.com/libp2p/go-libp2p/core/protocol"
 	mocknet "github.com/libp2p/go-libp2p/p2p/net/mock"
 	"go.uber.org/zap"
 
@@ -32,7 +36,7 @@ func init() {
 	fw.Register(&fw.Property{
 		ID:    "C20",
 		Level: "exploration",
-		Rule: "cases per adapter: (a) pubsubcoreapi over a SCRIPTED coreiface.PubSubAPI: the i-th Peers call returns the i-th of 5-30 PRNG membership sets (including swaps that keep the size equal and empty sets); scripted subscription streams mixing own and foreign senders with payloads 0 B - 64 KiB; (b) oneonone: two channel sets over one in-memory pubsub hub (which, like real pubsub, echoes a peer its own messages), both Connect, payloads with unique ids sent from both ends in a PRNG interleaving, also with concurrent Connect calls; (c) directchannel over in-memory libp2p (mocknet) hosts: payload sizes {0, 1, 1 KiB, 4 MiB-1, 4 MiB, 4 MiB+1, 6 MiB} and PRNG sizes, concurrent senders; (d) pubsubraw over real go-libp2p-pubsub on mocknet. " +
+		Rule: "cases per adapter: (a) pubsubcoreapi over a SCRIPTED coreiface.PubSubAPI: the i-th Peers call returns the i-th of 5-30 PRNG membership sets (including swaps that keep the size equal and empty sets); scripted subscription streams mixing own and foreign senders with payloads 0 B - 64 KiB; (b) oneonone: two channel sets over one in-memory pubsub hub (which, like real pubsub, echoes a peer its own messages), both Connect, payloads with unique ids sent from both ends in a PRNG interleaving, also with concurrent Connect calls; (c) directchannel over in-memory libp2p (mocknet) hosts: payload sizes {0, 1, 1 KiB, 4 MiB-1, 4 MiB, 4 MiB+1, 6 MiB} and PRNG sizes, concurrent senders, in every second case over streams that hand each write to the transport in PRNG pieces of 1 B - 64 KiB (a stream has no message boundaries); (d) pubsubraw over real go-libp2p-pubsub on mocknet. " +
 			"distinct = hash(adapter, script); non-trivial = adapter (a): >= 3 membership changes incl. a leave; (b),(c),(d): >= 5 payloads delivered and the closing marker payload arrived",
 		Assumptions: []string{"scripted coreiface.PubSubAPI / in-memory hub / mocknet stand in for the network", "loss is decided only after a marker payload sent afterwards on the same path has arrived and the counts are stable (marker never arriving => inconclusive)"},
 		Cases:       c20Cases,
@@ -635,18 +639,72 @@ func c20OneOnOne(c fw.Case) fw.Verdict {
 	return v
 }
 
+// chunkHost is a host whose outgoing streams hand their bytes to the transport in pieces, as a real
+// stream transport (TCP, yamux frames) does: a stream has no message boundaries, so a receiver that
+// assumes one Write arrives as one Read is wrong. The in-memory network delivers every Write whole.
+type chunkHost struct {
+	host.Host
+	mu     sync.Mutex
+	rng    *mrand.Rand
+	chunks int64
+}
+
+func (h *chunkHost) NewStream(ctx context.Context, p peer.ID, pids ...protocol.ID) (network.Stream, error) {
+	s, err := h.Host.NewStream(ctx, p, pids...)
+	if err != nil {
+		return nil, err
+	}
+	return &chunkStream{Stream: s, h: h}, nil
+}
+
+type chunkStream struct {
+	network.Stream
+	h *chunkHost
+}
+
+func (s *chunkStream) Write(b []byte) (int, error) {
+	n := 0
+	for len(b) > 0 {
+		s.h.mu.Lock()
+		k := 1 + s.h.rng.Intn(64<<10)
+		if s.h.rng.Intn(4) == 0 {
+			k = 1 + s.h.rng.Intn(16)
+		}
+		s.h.mu.Unlock()
+		if k > len(b) {
+			k = len(b)
+		}
+		m, err := s.Stream.Write(b[:k])
+		n += m
+		if err != nil {
+			return n, err
+		}
+		atomic.AddInt64(&s.h.chunks, 1)
+		b = b[k:]
+	}
+	return n, nil
+}
+
 func c20Direct(c fw.Case) fw.Verdict {
 	rng := mrand.New(mrand.NewSource(c.Seed))
 	v := fw.Verdict{}
 	mn := mocknet.New()
 	defer mn.Close()
+	var hA, hB host.Host
 	hA, err := mn.GenPeer()
 	if err != nil {
 		return fw.Verdict{Status: fw.Inconclusive, What: err.Error()}
 	}
-	hB, err := mn.GenPeer()
+	hB, err = mn.GenPeer()
 	if err != nil {
 		return fw.Verdict{Status: fw.Inconclusive, What: err.Error()}
+	}
+	chunked := c.Int("i", 0)%2 == 1
+	var cA, cB *chunkHost
+	if chunked {
+		cA = &chunkHost{Host: hA, rng: mrand.New(mrand.NewSource(c.Seed + 1))}
+		cB = &chunkHost{Host: hB, rng: mrand.New(mrand.NewSource(c.Seed + 2))}
+		hA, hB = cA, cB
 	}
 	_ = mn.LinkAll()
 	_ = mn.ConnectAllButSelf()
@@ -732,11 +790,14 @@ func c20Direct(c fw.Case) fw.Verdict {
 	}
 	v.Count("direct_payloads_checked", int64(len(sentA)+len(sentB)))
 	v.Count("oversize_frames_refused", int64(oversize))
+	if chunked {
+		v.Count("direct_transport_chunks_written", atomic.LoadInt64(&cA.chunks)+atomic.LoadInt64(&cB.chunks))
+	}
 	v.Status = fw.Held
 	v.NonTrivial = len(sentA)+len(sentB) >= 5
 	v.Sig = fw.HashSig("direct", c.Seed)
 	sort.Ints(plan)
-	v.Sample = map[string]interface{}{"adapter": "directchannel", "payload_sizes": plan, "oversize": oversize}
+	v.Sample = map[string]interface{}{"adapter": "directchannel", "payload_sizes": plan, "oversize": oversize, "chunked_transport": chunked}
 	return v
 }
 
